@@ -15,6 +15,10 @@ package babe
 //   thr-mono      c_a < c_b with (c_b-c_a) >= n*2^-46  =>  impl(c_a) <= impl(c_b)
 //   cmp           checkPrimaryThreshold(out, T) is the step function  [v < T]  of a single 128-bit value v
 //   sec           getSecondarySlotAuthor == BE(BLAKE2b-256(randomness || LE64(slot))) mod n
+//   sec-verify    verifySecondarySlotPlain(idx,slot,n,randomness) succeeds iff idx is that index - also when the same slot
+//                 and n were seen under another randomness before (order A,B,A)
+//   concurrent    all of the above on the returns of G = 2..16 simultaneous callers with different inputs
+//                 (zz_verif_c25_conc_test.go)
 
 import (
 	"fmt"
@@ -52,24 +56,40 @@ func vfAbsDiff(impl *big.Int, ref *big.Float) *big.Float {
 // vfCheckThreshold runs CalculateThreshold on an in-domain input (0 < c1 <= c2, n >= 1) and applies the
 // thr-* oracles. It returns the implementation's value (nil when the call failed).
 func vfCheckThreshold(c *vcommon.Case, c1, c2 uint64, n int) *big.Int {
-	w := map[string]any{"c1": c1, "c2": c2, "n": n}
 	thr, err := CalculateThreshold(c1, c2, n)
-	c.Count("thr_calls", 1)
+	impl, _ := vfJudgeThreshold(c, "", c1, c2, n, thr, err, nil)
+	return impl
+}
+
+// vfJudgeThreshold applies the thr-* oracles to one observed return (thr, err) of CalculateThreshold(c1,c2,n). The
+// verdict depends on the call's own input only. pfx prefixes the counters (the concurrent family keeps its own), extra
+// is added to the witness of a violation. Returns the value (nil when the call failed) and whether an oracle refuted it.
+func vfJudgeThreshold(c *vcommon.Case, pfx string, c1, c2 uint64, n int, thr *scale.Uint128, err error,
+	extra map[string]any) (value *big.Int, refuted bool) {
+	w := map[string]any{"c1": c1, "c2": c2, "n": n}
+	for k, v := range extra {
+		w[k] = v
+	}
+	viol := func(class, msg string) {
+		refuted = true
+		c.Violation(class, msg, w)
+	}
+	c.Count(pfx+"thr_calls", 1)
 	if err != nil || thr == nil {
 		c.Eval(1)
-		c.Violation("thr-error", fmt.Sprintf("CalculateThreshold(%d,%d,%d) failed on an in-domain input: %v", c1, c2, n, err), w)
-		return nil
+		viol("thr-error", fmt.Sprintf("CalculateThreshold(%d,%d,%d) failed on an in-domain input: %v", c1, c2, n, err))
+		return nil, refuted
 	}
 	impl := vfU128Big(thr)
 	w["impl"] = impl.String()
 
 	if c1 == c2 {
-		c.Count("thr_c_eq_1", 1)
+		c.Count(pfx+"thr_c_eq_1", 1)
 		c.Eval(1)
 		if impl.Cmp(vfMaxU128) != 0 {
-			c.Violation("thr-c1", fmt.Sprintf("c=1 (c1=c2=%d), n=%d: threshold %s, want MaxUint128", c1, n, impl), w)
+			viol("thr-c1", fmt.Sprintf("c=1 (c1=c2=%d), n=%d: threshold %s, want MaxUint128", c1, n, impl))
 		}
-		return impl
+		return impl, refuted
 	}
 
 	// thr-pipeline: Substrate's value is a deterministic function of IEEE-754 double operations. Where the power is
@@ -85,17 +105,17 @@ func vfCheckThreshold(c *vcommon.Case, c1, c2 uint64, n int) *big.Int {
 			pr := new(big.Rat).SetFloat64(p64)
 			want = new(big.Int).Div(new(big.Int).Mul(vfTwo128, pr.Num()), pr.Denom())
 		}
-		c.Count("thr_bit_exact_checked", 1)
+		c.Count(pfx+"thr_bit_exact_checked", 1)
 		if float64(float64(c1)/float64(c2)) < 0.5 && n == 1 {
 			if cr := new(big.Rat).SetFrac(new(big.Int).SetUint64(c1), new(big.Int).SetUint64(c2)); !cr.Denom().IsInt64() ||
 				cr.Denom().Int64()&(cr.Denom().Int64()-1) != 0 {
-				c.Count("thr_bit_exact_nondyadic_c_below_half_n1", 1) // 1-(1-c) != c in doubles: shortcuts show
+				c.Count(pfx+"thr_bit_exact_nondyadic_c_below_half_n1", 1) // 1-(1-c) != c in doubles: shortcuts show
 			}
 		}
 		if impl.Cmp(want) != 0 {
 			w["f64_reference"] = want.String()
-			c.Violation("thr-f64-exact", fmt.Sprintf("CalculateThreshold(%d,%d,%d)=%s; the double pipeline 1-(1-c1/c2)^(1/n) is exactly "+
-				"determined here and gives floor(2^128*p)=%s", c1, c2, n, impl, want), w)
+			viol("thr-f64-exact", fmt.Sprintf("CalculateThreshold(%d,%d,%d)=%s; the double pipeline 1-(1-c1/c2)^(1/n) is exactly "+
+				"determined here and gives floor(2^128*p)=%s", c1, c2, n, impl, want))
 		}
 	} else {
 		y := vfSub(vfFi(1), vfF().SetMantExp(pipe, -128)) // exact q^theta
@@ -105,31 +125,31 @@ func vfCheckThreshold(c *vcommon.Case, c1, c2 uint64, n int) *big.Int {
 		tol := vfAdd(vfF().SetMantExp(vfMul(rel, y), -51), vfF().SetMantExp(vfFi(1), -53)) // 2*rel*y*2^-52 + 2^-53
 		tol.SetMantExp(tol, 128)
 		d := vfAbsDiff(impl, pipe)
-		c.Count("thr_ulp_checked", 1)
+		c.Count(pfx+"thr_ulp_checked", 1)
 		if vfMul(d, vfFi(4)).Cmp(tol) > 0 {
-			c.Count("thr_ulp_diff_above_quarter_tolerance", 1) // observation: how close a correct pipeline comes
+			c.Count(pfx+"thr_ulp_diff_above_quarter_tolerance", 1) // observation: how close a correct pipeline comes
 		}
 		if d.Cmp(tol) > 0 {
 			w["pipeline_value"] = pipe.Text('f', 0)
 			w["abs_diff_log2"] = d.MantExp(nil)
 			w["tol_log2"] = tol.MantExp(nil)
-			c.Violation("thr-pipeline", fmt.Sprintf("CalculateThreshold(%d,%d,%d)=%s differs from 2^128*(1-(1-c)^(1/n)) "+
+			viol("thr-pipeline", fmt.Sprintf("CalculateThreshold(%d,%d,%d)=%s differs from 2^128*(1-(1-c)^(1/n)) "+
 				"evaluated on the double inputs (%s) by 2^%d > ulp-level tolerance 2^%d", c1, c2, n, impl, pipe.Text('f', 0),
-				d.MantExp(nil), tol.MantExp(nil)), w)
+				d.MantExp(nil), tol.MantExp(nil)))
 		}
 	}
 	switch {
 	case q64 == 1:
-		c.Count("thr_1_minus_c_rounds_to_1", 1)
+		c.Count(pfx+"thr_1_minus_c_rounds_to_1", 1)
 	case q64 == 0:
-		c.Count("thr_c_rounds_to_1", 1)
+		c.Count(pfx+"thr_c_rounds_to_1", 1)
 	case q64 < 1.0/1024:
-		c.Count("thr_c_near_1", 1)
+		c.Count(pfx+"thr_c_near_1", 1)
 	}
 	if n == 1 {
-		c.Count("thr_n_eq_1", 1)
+		c.Count(pfx+"thr_n_eq_1", 1)
 	} else if n >= 512 {
-		c.Count("thr_n_ge_512", 1)
+		c.Count(pfx+"thr_n_ge_512", 1)
 	}
 
 	// thr-exact
@@ -156,24 +176,24 @@ func vfCheckThreshold(c *vcommon.Case, c1, c2 uint64, n int) *big.Int {
 		}
 	}
 	if wellCond {
-		c.Count("thr_exact_compared", 1)
+		c.Count(pfx+"thr_exact_compared", 1)
 		c.Eval(1)
 		if d := vfAbsDiff(impl, real); d.Cmp(tol) > 0 {
 			w["exact_floor"] = floor.String()
 			w["abs_diff_log2"] = d.MantExp(nil)
 			w["tol_log2"] = tol.MantExp(nil)
-			c.Violation("thr-exact", fmt.Sprintf("CalculateThreshold(%d,%d,%d)=%s, exact floor(2^128*(1-(1-c)^(1/n)))=%s, "+
-				"|diff|=2^%d > tolerance 2^%d", c1, c2, n, impl, floor, d.MantExp(nil), tol.MantExp(nil)), w)
+			viol("thr-exact", fmt.Sprintf("CalculateThreshold(%d,%d,%d)=%s, exact floor(2^128*(1-(1-c)^(1/n)))=%s, "+
+				"|diff|=2^%d > tolerance 2^%d", c1, c2, n, impl, floor, d.MantExp(nil), tol.MantExp(nil)))
 		}
 	} else {
-		c.Count("thr_exact_skipped_illconditioned", 1)
+		c.Count(pfx+"thr_exact_skipped_illconditioned", 1)
 	}
 	c.Distinct(fmt.Sprintf("thr|%d|%d|%d", c1, c2, n))
 	if c.Idx%3 == 1 && c.Idx < 12 {
 		c.Sample(map[string]any{"kind": "threshold", "c1": c1, "c2": c2, "n": n, "impl": impl.String(), "exact_floor": floor.String(),
 			"exact_compared": wellCond})
 	}
-	return impl
+	return impl, refuted
 }
 
 // vfPickN draws an authority count in 1..1024 biased to the edges.
@@ -456,6 +476,22 @@ func TestVerifC25(t *testing.T) {
 	r.Floor("cmp_value_vs_make_bytes", 20)
 	r.Floor("sec_calls", 2000)
 	r.Floor("sec_slot_above_2^32", 200)
+	r.Floor("sec_verify_same_slot_same_n_after_other_randomness", 1000)
+	r.Floor("sec_verify_same_slot_same_n_author_differs_between_randomness", 500)
+	for _, g := range []int{2, 4, 8, 16} {
+		r.Floor(fmt.Sprintf("conc_cases_G%d", g), 4)
+	}
+	r.Floor("conc_thr_calls", 5000)
+	r.Floor("conc_thr_calls_with_another_caller_inside", 500)
+	r.Floor("conc_thr_c_eq_1_inputs_judged", 100)
+	r.Floor("conc_thr_near_boundary_inputs_judged", 200)
+	r.Floor("conc_judged_thr_bit_exact_checked", 50)
+	r.Floor("conc_judged_thr_ulp_checked", 500)
+	r.Floor("conc_sec_calls", 1000)
+	r.Floor("conc_secverify_calls", 1000)
+	r.Floor("conc_cmp_calls", 100)
+	r.Floor("conc_shared_slot_same_n_own_randomness_calls", 500)
+	r.Floor("conc_shared_slot_cases_where_author_differs_between_randomness", 8)
 
 	fixed := vfFixedThresholds()
 	r.Fixed("thr-fixed", len(fixed), func(c *vcommon.Case) {
@@ -516,6 +552,9 @@ func TestVerifC25(t *testing.T) {
 
 	r.Cases("cmp", r.Scale(24), vfCheckCompare)
 
+	// concurrent callers, each judged on its own inputs (zz_verif_c25_conc_test.go)
+	vfConcFamily(r, "conc", r.Scale(32), 400)
+
 	type secIn struct {
 		rnd  Randomness
 		slot uint64
@@ -553,4 +592,6 @@ func TestVerifC25(t *testing.T) {
 		}
 		vfCheckSecondary(c, rnd, slot, n)
 	})
+	// the same slot and authority count under different randomness, A,B,A
+	r.Cases("sec-reuse", r.Scale(300), vfCheckSecReuse)
 }
